@@ -196,6 +196,22 @@ func genC06(r *Rng) *Scenario {
 		sc.Ops = append(sc.Ops, Op{AtUs: t, Actor: 2 + i, Kind: "publish", QoS: 1, Topic: "a", Token: fmt.Sprintf("m%d", i)})
 		t += 5
 	}
+	// ... or a blocked Subscribe that is answered by a SUBACK with its own
+	// identifier and the wrong number of return codes
+	subID, subN := uint16(0), 0
+	if r.chance(0.12) {
+		cur := cfg.InitIDs[0]
+		for i := 0; i <= nblocked; i++ {
+			cur, subID = nextID(cur)
+		}
+		subN = int(r.between(1, 3))
+		op := Op{AtUs: t, Actor: 5, Kind: "subscribe"}
+		for j := 0; j < subN; j++ {
+			op.Subs = append(op.Subs, SubReq{filters[j%len(filters)], byte(r.IntN(3))})
+		}
+		sc.Ops = append(sc.Ops, op)
+		t += 5
+	}
 	t += cfg.LatC2BUs + 20
 	npre := int(r.between(0, 6))
 	rel := 0
@@ -220,7 +236,20 @@ func genC06(r *Rng) *Scenario {
 	if cls == 12 && !r.chance(0.08) {
 		cls = 3 // the 256 MB allocation is legal but slow: keep it rare
 	}
+	if subN > 0 {
+		cls = 15
+	}
 	switch cls {
+	case 15: // gray: SUBACK for the pending SUBSCRIBE with too many / too few return codes
+		k := subN + int(r.between(1, 3))
+		if r.chance(0.3) {
+			k = subN - 1
+		}
+		codes := make([]byte, k)
+		for i := range codes {
+			codes[i] = []byte{0, 1, 2, 0x80}[r.IntN(4)]
+		}
+		o.RawHex, o.Class = hex.EncodeToString(EncodeB2C(&Pkt{Type: TSubAck, ID: subID, Codes: codes})), "gray-suback-count"
 	case 0: // truncation at any byte, then EOF
 		var pk []byte
 		switch r.IntN(4) {
@@ -288,7 +317,17 @@ func genC06(r *Rng) *Scenario {
 		}
 		o.RawHex, o.Class = hex.EncodeToString(frame(ty, body)), "short-body"
 	case 8: // topic length beyond the body
-		b := frame(0x30, []byte{0, byte(r.between(3, 200)), 'a'})
+		hi, lo := byte(0), byte(r.between(3, 200))
+		if r.chance(0.4) {
+			// boundary values of the 16-bit length field
+			v := []uint16{0xFFFF, 0xFFFE, 0xFFFD, 0x8000, 0x7FFF, 0x0100, 0xFF00}[r.IntN(7)]
+			hi, lo = byte(v>>8), byte(v)
+		}
+		tail := []byte{'a'}
+		if r.chance(0.3) {
+			tail = []byte{'a', 'b', 'c', 'd'}[:r.IntN(5)]
+		}
+		b := frame(0x30, append([]byte{hi, lo}, tail...))
 		o.RawHex, o.Class = hex.EncodeToString(b), "topic-beyond-body"
 	case 9: // QoS>0 without room for the identifier
 		body := putStr(nil, "a")
@@ -890,9 +929,11 @@ func genC12Base(r *Rng) *Scenario {
 		cause := r.pick("cancel", "deadline", "localclose", "peereof", "peerreset", "writeerr")
 		switch step {
 		case 0: // the write itself fails / dead link before the call
-			if cause == "writeerr" || cause == "deadline" || cause == "cancel" {
+			if cause == "writeerr" || cause == "deadline" {
 				sc.Faults = append(sc.Faults, Fault{Kind: "writeErr", Conn: conn, N: 1, Prefix: int(r.between(0, 5)), Code: byte(r.IntN(2))})
 			} else {
+				// incl. a context that is already cancelled when the call is made:
+				// the request is still written once (DUP=0) before the call gives up
 				genCause(sc, cause, t-200, me, cli, conn)
 			}
 		case 1: // after the request was written
@@ -983,6 +1024,10 @@ func genC15(r *Rng) *Scenario {
 					op.PresetID = 1
 				}
 			}
+		}
+		if (op.Kind != "publish" || op.QoS > 0) && r.chance(0.12) {
+			// given up by its context while others stay outstanding
+			op.CtxTimeoutUs = r.between(20, 400)
 		}
 		sc.Ops = append(sc.Ops, op)
 		if op.Kind != "publish" || op.QoS > 0 {
